@@ -1,1 +1,113 @@
-/-! C07 — property theorems (stub; no obligations yet) -/
+import Ypv.Lemmas.Search
+/-!
+# C07 — yaml-paths search is sound and complete, and every printed path resolves
+
+Model: `Ypv.Search.search` (`Model/Search.lean`, mirror of `search_for_paths` / `yield_children` /
+`Searches.search_anchor` as they read after `fixes/C07-1 … 7`).  Specification: `Spec.found`
+(`Spec/Search.lean`): one pass over the positions of the document in document order with one rule
+per position.  Documents are `SNode` (= `Node` plus anchored keys and merge keys; `ofNode` embeds
+`Node`), the term test is any `μ : Scalar → Bool` (the driver instantiates it with
+`Ypv.searchMatches` + the inversion test), the options are all seven Booleans of `Opts`
+(`optsOfCli` is `main()`'s option handling).
+-/
+namespace Ypv.C07
+open Ypv Ypv.Search
+
+/-- **Soundness and completeness.**  For every document, every term test and every option mix the
+addresses the search reports, in order, are exactly `Spec.found`: every value — with key-name
+search every key, with reference-name search every anchor / merge reference — that satisfies the
+expression and is reached by the pass; an aliased repeat of an anchored value only when value
+aliases are asked for, the name of an aliased key only when key aliases are asked for; nothing else. -/
+theorem search_eq_found (c : Ctx) (d : SNode) : (search c d).map Hit.addr = Spec.found c d := by
+  cases d with
+  | scalar a v =>
+    simp only [search, sNode, Spec.found, rootFix]
+    by_cases h : v = .null
+    · simp [h]
+    · simp [h, valueHit_addr]
+  | seq a items =>
+    have := s_node c (.seq a items) [] [] [] [] rfl
+    simpa [search, Spec.found, scan_nil] using this.symm
+  | map a o m r =>
+    have := s_node c (.map a o m r) [] [] [] [] rfl
+    simpa [search, Spec.found, scan_nil] using this.symm
+  | set a ms =>
+    have := s_node c (.set a ms) [] [] [] [] rfl
+    simpa [search, Spec.found, scan_nil] using this.symm
+
+/-- the same for the common document type `Node` -/
+theorem search_eq_found_node (c : Ctx) (d : Node) :
+    (search c (ofNode d)).map Hit.addr = Spec.found c (ofNode d) := search_eq_found c (ofNode d)
+
+/-- **Nothing else is reported**: every reported address is the address of a position of the
+document (or the root of a scalar document). -/
+theorem found_is_position (c : Ctx) (d : SNode) (a : SAddr) (h : a ∈ (search c d).map Hit.addr) :
+    a = [] ∨ ∃ p ∈ Spec.flat d [], p.addr = a := by
+  rw [search_eq_found] at h
+  cases d with
+  | scalar _ v =>
+    left
+    simp only [Spec.found] at h
+    split at h <;> simp_all
+  | seq _ _ => exact Or.inr (scan_sub c _ _ _ a h)
+  | map _ _ _ _ => exact Or.inr (scan_sub c _ _ _ a h)
+  | set _ _ => exact Or.inr (scan_sub c _ _ _ a h)
+
+/-- **Expansion.**  With `expand_children` on, a matched container is replaced by exactly the
+list `Spec.leaves` of the positions below it: what "yield the match" (`emit`) contributes for a
+matched container `n` at address `a'` is the expansion pass over `flat n a'` … -/
+theorem expand_is_leaves (c : Ctx) (hx : c.o.expand = true) (n : SNode) (hn : n.isContainer = true)
+    (tmp : Str) (a' : SAddr) (seen : List Str) :
+    (emit c n tmp a' seen).1.map Hit.addr = (Spec.leaves c seen 0 (Spec.flat n a')).1 := by
+  have := yc_node c n tmp a' seen [] hn
+  simp only [List.append_nil] at this
+  simp [emit, hx, this, andThen, Spec.leaves]
+
+/-- … and that pass lists only leaves: every listed address is the address of a position below the
+matched parent that is not a container (a scalar value or a set member); the parent itself is not
+among them. -/
+theorem expand_lists_leaves_only (c : Ctx) (n : SNode) (a' : SAddr) (seen : List Str) (a : SAddr)
+    (h : a ∈ (Spec.leaves c seen 0 (Spec.flat n a')).1) :
+    ∃ p ∈ Spec.flat n a', p.addr = a ∧ p.kind ≠ .container :=
+  leaves_sub c _ seen 0 a h
+
+/-- without expansion a matched position is reported as itself -/
+theorem no_expand_is_self (c : Ctx) (hx : c.o.expand = false) (n : SNode) (tmp : Str) (a' : SAddr)
+    (seen : List Str) : (emit c n tmp a' seen).1.map Hit.addr = [a'] := by
+  simp [emit, hx]
+
+/-! ## Concrete instances (the hypotheses are met, the functions compute) -/
+
+/-- `a: &x {k: v}`, `b: *x`, `c: [&s v, *s]` -/
+def demoDoc : SNode :=
+  .map none
+    [(⟨none, .str "a".toList⟩, .map (some "x".toList) [(⟨none, .str "k".toList⟩, .scalar none (.str "v".toList))] [] []),
+     (⟨none, .str "b".toList⟩, .map (some "x".toList) [(⟨none, .str "k".toList⟩, .scalar none (.str "v".toList))] [] []),
+     (⟨none, .str "c".toList⟩, .seq none [.scalar (some "s".toList) (.str "v".toList),
+                                          .scalar (some "s".toList) (.str "v".toList)])] [] []
+
+/-- the term test `=v` -/
+def demoCtx (o : Opts) : Ctx := ⟨o, fun s => s == .str "v".toList⟩
+
+/-- default options: the aliased repeats `b.k` and `c[1]` are not reported -/
+example : (search (demoCtx {}) demoDoc).map Hit.path = ["a.k".toList, "c[&s]".toList] := by decide +kernel
+/-- with value aliases included they are -/
+example : (search (demoCtx { inclValueAliases := true }) demoDoc).map Hit.path =
+    ["a.k".toList, "b.k".toList, "c[&s]".toList, "c[&s]".toList] := by decide +kernel
+example : Spec.found (demoCtx {}) demoDoc = [[.key (.str "a".toList), .key (.str "k".toList)],
+    [.key (.str "c".toList), .idx 0]] := by decide +kernel
+/-- key-name search with expansion: the matched key `a` is replaced by its leaf -/
+example : (search ⟨{ searchKeys := true, expand := true, fslash := true }, fun s => s == .str "a".toList⟩ demoDoc).map
+    Hit.path = ["/a/k".toList] := by decide +kernel
+
+/-! ## Known finding: a key and its text as another key (`{1: x, '1': y}`)
+
+The path notation writes the integer key `1` and the string key `'1'` the same way; the search
+reports two different addresses under one path text (so the printed path cannot denote both). -/
+def clashDoc : SNode :=
+  .map none [(⟨none, .int 1⟩, .scalar none (.str "x".toList)), (⟨none, .str "1".toList⟩, .scalar none (.str "y".toList))] [] []
+
+example : (search ⟨{}, fun _ => true⟩ clashDoc) =
+    [⟨"1".toList, [.key (.int 1)]⟩, ⟨"1".toList, [.key (.str "1".toList)]⟩] := by decide +kernel
+
+end Ypv.C07
